@@ -290,7 +290,7 @@ Section Obj.
       | Some x => entry_ok n x /\ pval_has_custom x = false
       | None => True
       end).
-    { intros ->. rewrite El. repeat split; auto. }
+    { intros ->. rewrite El. split; [auto|split; [auto|split; [auto|split; auto]]]. }
     assert (Set_ : forall v, st = aset n v setting ->
       match v with PJ j => jscope j = true | x => entry_ok n x /\ pval_has_custom x = false end ->
       NoDup (map fst st) /\
@@ -302,7 +302,7 @@ Section Obj.
       | Some x => entry_ok n x /\ pval_has_custom x = false
       | None => True
       end).
-    { intros v -> Hv. rewrite alookup_aset_same. split; [apply keys_aset_nodup; auto|]. split; [|split; [|split]]; auto.
+    { intros v -> Hv. rewrite alookup_aset_same. split; [apply keys_aset_nodup; auto|]. split; [|split; [|split; [|exact Hv]]].
       - intros k x Hin Hne. apply In_aset_nodup in Hin; auto. destruct Hin as [[-> _]|[Hin _]]; [contradiction|auto].
       - intros k Hk. rewrite amem_aset, Hk. apply orb_true_r.
       - intros k Hk. rewrite amem_aset in Hk. apply orb_true_iff in Hk. destruct Hk as [Hk|Hk]; auto.
@@ -332,8 +332,7 @@ Section Obj.
     (forall n s, In n l -> slot_of c n = Some s -> default_present s = true -> amem n setting' = true).
   Proof.
     induction l as [|n rest IH]; intros setting setting' hc' NDl Hsl Hfresh HInv H.
-    - simpl in H. inversion H; subst. repeat split; auto; try apply HInv.
-      all: try (intros n s []; fail).
+    - simpl in H. inversion H; subst. split; [auto|split; [auto|split; [auto|]]]. intros n s [].
     - simpl in H. inversion NDl as [|? ? Hn NDrest]; subst.
       destruct (Hsl n (or_introl eq_refl)) as [s Hs]. rewrite Hs in H.
       destruct (slot_of_spec _ _ Hs) as [Hin Hname].
@@ -355,7 +354,7 @@ Section Obj.
           + apply (Hfresh k Hk''). right; auto.
           + apply Hn; auto.
         - rewrite Hname in Hin'. apply Hn; auto. }
-      repeat split; auto; try apply B'.
+      split; [auto|split; [auto|split; [auto|]]].
       intros m s0 [<- | Hm] Hs0 Hd.
       + rewrite Hs in Hs0. inversion Hs0; subst s0. apply C'. rewrite <- Hname. apply E; auto.
       + eapply D'; eauto.
